@@ -63,6 +63,15 @@ def gen_runs(ctx, label, n, small=True):
     for i in range(n):
         mp = G.MPS[i % 4]
         ns = G.legal(rng, mp, small=small)
+        if i % 5 == 4 and mp in ('hr', 'spa', 'ha'):
+            # sparse lists: few first-side agents with one-entry lists over many second-side agents, quota sums that
+            # give every second-side agent a positive lower quota (some of them are ranked by nobody)
+            n1 = rng.randint(1, 3)
+            n2 = rng.randint(3, 6)
+            k = rng.choice([1, 2])
+            ns.update(n1=n1, n2=n2, pmin=1, pmax=rng.choice([1, 1, 2]), lq=k * n2, uq=k * n2 + rng.randint(0, 2))
+            if mp == 'spa':
+                ns.update(n3=rng.randint(2, n2 + 1), luq=3 * n2, lt=None, llq=None)
         if rng.random() < 0.35:
             ns['t1'] = rng.choice([0.0, 1.0])
         if ns['twopl'] and rng.random() < 0.35:
